@@ -9,7 +9,7 @@ cleanup() { git -C /repo worktree remove --force $wt >> "$log" 2>&1; }
 trap cleanup EXIT
 cd $wt
 if ! git apply "$d/patch.diff" >> "$log" 2>&1; then echo "NOT-CONFIRMED patch does not apply"; exit 1; fi
-cp "$d"/demo.sh . 2>/dev/null; chmod +x demo.sh
+cp "$d"/demo.sh . 2>/dev/null; cp "$d"/*.rs "$d"/*.pas . 2>/dev/null; chmod +x demo.sh
 echo "--- suite with patch" >> "$log"
 cargo nextest run --workspace --no-fail-fast --offline --test-threads 8 > suite.out 2>&1; rc=$?
 tail -3 suite.out >> "$log"
